@@ -42,6 +42,8 @@ def fixed_specs():
     add(route='segy_2d', shape=[9, 30], bits=4, blockshape=[1, 4, -1], fmt=5, detection='heuristic')
     add(route='segy_2d', shape=[70, 70], bits=8, blockshape=[1, 64, -1], fmt=1, detection='thorough')
     add(route='segy_2d', shape=[300, 33], bits=4, blockshape=[1, 256, -1], fmt=1, detection='strip')
+    add(route='numpy', shape=[41, 9, 12], bits=4, blockshape=[4, 4, -1])           # >= 10 parallel range reads
+    add(route='numpy', shape=[130, 70, 6], bits=2, blockshape=[64, 64, 4])
     return S
 
 
